@@ -195,3 +195,37 @@ def deep_import_program(rng):
           "try { print(deep(3)); } catch e { print(type(e)); print(e.context); }"]
     L += ["print(%s);" % s for s in shadow if s != "type"]
     return "\n".join(L) + "\n", mods
+
+
+def self_import_program(rng):
+    """modules whose functions import their own module or a peer *when called*, i.e. after (or, for some, during) the
+    load: an import of a module that has finished loading yields that module whoever asks, an import of one that is
+    still loading is the ImportError, and the difference is decided by the load state alone"""
+    r = rng
+    n = r.range(1, 3)
+    mods = []
+    for k in range(n):
+        other = (k + 1) % n
+        body = ["print(\"load sm%d\");" % k, "var tag = \"tag%d\";" % k, "var calls = 0;",
+                "fn me() { calls += 1; import \"sm%d\" as s; return s; }" % k,
+                "fn me_tag() { import \"sm%d\" as s; return [s.tag, s.calls]; }" % k,
+                "fn peer() { import \"sm%d\" as o; return o.tag; }" % other,
+                "#[constructor(new)] class Holder { fn own(self) { import \"sm%d\" as s; return s.tag; } #[static] fn st() { import \"sm%d\" as s; return s; } }" % (k, k),
+                "var lam = || { import \"sm%d\" as s; return s.calls; };" % k]
+        if r.chance(40):
+            body.append("try { print(me()); } catch e { print(\"during load: ${e.context}\"); }")
+        if r.chance(30):
+            body.append("try { import \"sm%d\" as early; print(early); } catch e { print(\"top-level self import: ${e.context}\"); }" % k)
+        if r.chance(30) and n > 1:
+            body.append("try { print(peer()); } catch e { print(\"peer during load: ${e.context}\"); }")
+        mods.append(("sm%d" % k, "\n".join(body) + "\n"))
+    L = []
+    for k in range(n):
+        L.append("import \"sm%d\" as m%d; print(\"imported sm%d\");" % (k, k, k))
+    for k in range(n):
+        calls = ["print(m%d.me() == m%d);" % (k, k), "print(m%d.me_tag());" % k, "print(m%d.peer());" % k, "print(m%d.Holder.new().own());" % k,
+                 "print(m%d.Holder.st() == m%d);" % (k, k), "print(m%d.lam());" % k, "var f%d = m%d.me; print(f%d().tag);" % (k, k, k),
+                 "var fb%d = Fiber.new(|| m%d.me()); print(fb%d.call() == m%d);" % (k, k, k, k)]
+        for c in r.sample(calls, r.range(3, len(calls))):
+            L.append("try { %s } catch e { print(type(e)); print(e.context); }" % c)
+    return "\n".join(L) + "\n", mods
